@@ -472,8 +472,8 @@ MACRO_KSY = ('_emitseq', '_emitprimitivetype', '_emitfulltype')
 
 def check_macro_shapes(c, seen=None):
     """model/Ksy.v recognises the macros that carry their own KSY emitters (CString, GreedyString, PaddedString, PascalString,
-    If, Padding) by the shape of their expansion: an object of such a shape without the instance emitters, or an object
-    with instance emitters of another shape (Bitwise, Bytewise, PrefixedArray), is outside the model"""
+    If, Padding, PrefixedArray, Bitwise, Bytewise) by the shape of their expansion: an object of such a shape without the
+    instance emitters, or an object with instance emitters of another shape, is outside the model"""
     seen = set() if seen is None else seen
     if id(c) in seen:
         return
@@ -485,6 +485,26 @@ def check_macro_shapes(c, seen=None):
         shape = macro_shape(c)
         if has != (shape is not None):
             raise Unsupported('KSY emitters on the instance do not match the macro shape (%s)' % (shape or type(c).__name__))
+        if shape in ('PrefixedArray', 'Bitwise', 'Bytewise'):
+            # the emitters must be the macro's own closures over the parts the shape shows (what they DO is compared by the
+            # correspondence of the emitted schema; here only where they come from)
+            import inspect
+            want = ('_emitseq',) if shape == 'PrefixedArray' else MACRO_KSY
+            for k in MACRO_KSY:
+                f = vars(c).get(k)
+                if (f is not None) != (k in want):
+                    raise Unsupported('KSY emitters on the instance do not match the macro shape (%s)' % shape)
+                if f is None:
+                    continue
+                if getattr(f, '__qualname__', '') != '%s.<locals>.%s' % (shape, k):
+                    raise Unsupported('KSY emitter %s on a %s shape is not the macro\'s' % (k, shape))
+                cv = inspect.getclosurevars(f).nonlocals
+                if shape == 'PrefixedArray':
+                    ps = prefixedarray_shape(c)
+                    if cv.get('countfield') is not ps[0] or cv.get('subcon') is not ps[1]:
+                        raise Unsupported('KSY emitter of PrefixedArray closes over other parts')
+                elif cv.get('subcon') is not c.subcon:
+                    raise Unsupported('KSY emitter of %s closes over another subcon' % shape)
         for v in vars(c).values():
             check_macro_shapes(v, seen)
     elif isinstance(c, (list, tuple)):
@@ -511,6 +531,15 @@ def macro_shape(c):
         return 'If'
     if t is core.Padded and c.subcon is core.Pass:
         return 'Padding'
+    if prefixedarray_shape(c) is not None:
+        return 'PrefixedArray'
+    if t in (core.Transformed, core.Restreamed):
+        from construct.lib import binary
+        d, e = (c.decodefunc, c.encodefunc) if t is core.Transformed else (c.decoder, c.encoder)
+        if d is binary.bytes2bits and e is binary.bits2bytes:
+            return 'Bitwise'
+        if d is binary.bits2bytes and e is binary.bytes2bits:
+            return 'Bytewise'
     return None
 
 
